@@ -29,6 +29,7 @@ type dataParams struct {
 	recvEager bool
 	explicit  *[2][][]byte // when set: exactly these messages
 	prop      string       // oracle key prefix (default c01)
+	hsPattern *[2][]string // when set: the handshake runs over this loss / duplication script
 }
 
 func isCtrl(b []byte) bool { return len(b) > 0 && (b[0] == 3 || b[0] == 4) }
@@ -45,14 +46,20 @@ func (s *sim) head(x int) []byte {
 
 func runDataScenario(t *testing.T, l *evlog, q *oracle, cfg simCfg, r *rng, p dataParams) {
 	l.keep = l.keep[:0]
-	l.o.line("BEGIN %s n=%d chunk=%d", cfg.id, cfg.n, cfg.chunk)
+	srvChunk := cfg.chunk // the server's own maximum chunk size: same as the client's unless configured otherwise
+	if cfg.srvChunk > 0 {
+		srvChunk = cfg.srvChunk
+	} else if cfg.srvChunk < 0 {
+		srvChunk = 0
+	}
+	l.o.line("BEGIN %s n=%d chunk=%d srvchunk=%d", cfg.id, cfg.n, cfg.chunk, srvChunk)
 	var leaked []string
 	pan := bubble(t, func(t *testing.T) {
 		l.start = time.Now()
 		l.last = 0
 		base := runtime.NumGoroutine()
 		s := newSim(t, l, cfg)
-		if !s.cleanHandshake() {
+		if p.hsPattern == nil && !s.cleanHandshake() {
 			q.fail("gbn:clean-handshake-failed", fmt.Sprintf("scenario %s: clean handshake did not complete", cfg.id))
 			s.finish(base)
 			return
@@ -61,6 +68,19 @@ func runDataScenario(t *testing.T, l *evlog, q *oracle, cfg simCfg, r *rng, p da
 		var todo [2][][]byte
 		if p.explicit != nil {
 			todo = *p.explicit
+		}
+		if p.hsPattern != nil {
+			poke := append([]byte{200}, r.bytes(3)...)
+			ok, poked := s.scriptedHandshake(*p.hsPattern, poke)
+			if !ok {
+				// a handshake that fails under loss is a visible failure (C10's business), not a data-phase fact
+				q.stat("scripted_handshake_failed", 1)
+				s.finish(base)
+				return
+			}
+			if poked {
+				q.stat("server_handshake_completed_by_data", 1)
+			}
 		}
 		for x := 0; x < 2 && p.explicit == nil; x++ {
 			for i := 0; i < p.msgs[x]; i++ {
@@ -261,6 +281,12 @@ func TestGenGbn(t *testing.T) {
 		if rr.chance(1, 2) {
 			cfg.static = time.Second
 		}
+		if rr.chance(1, 3) {
+			// a handshake timeout above the resend timeout, as the mailbox configures it (2 s): the handshake
+			// timeout doubles as the minimum distance between two resend rounds
+			cfg.hsTO = time.Duration(rr.pick([]int{2000, 5000})) * time.Millisecond
+			q.stat("long_handshake_timeout_scenarios", 1)
+		}
 		if rr.chance(1, 4) {
 			// keepalive on: idle pings consume sequence numbers between the messages
 			// (a ping period below the resend timeout puts several pings in flight at once)
@@ -278,6 +304,21 @@ func TestGenGbn(t *testing.T) {
 		for k := 1; k <= 2*n+1; k++ {
 			run(n, 0, dataParams{msgs: [2]int{2*n + 3, 1}, maxSize: 8, steps: 60,
 				prof: faultProfile{name: "dropkth", dropKth: k}, recvEager: true})
+		}
+	}
+	// data phase after a handshake that needed retransmissions / a server restart, for windows other than the default
+	for _, n := range []int{1, 2, 3, 5, 19, 21, 30, 254} {
+		for _, pat := range [][2][]string{
+			{{"deliver", "drop"}, {}}, // the client's SYNACK is lost: the server restarts and is completed by DATA
+			{{"drop"}, {}},            // the client's first SYN is lost
+			{{}, {"drop"}},            // the server's SYN echo is lost
+			{{"keep"}, {"keep"}},      // duplicated SYN and echo
+		} {
+			pat := pat
+			id++
+			cfg := simCfg{id: fmt.Sprintf("g%d", id), n: uint8(n), hsTO: time.Second, static: time.Second}
+			runDataScenario(t, l, q, cfg, r.sub(id), dataParams{msgs: [2]int{n + 12, 3}, maxSize: 6, steps: 40,
+				prof: faultProfile{name: "after-lossy-handshake"}, recvEager: true, hsPattern: &pat})
 		}
 	}
 	for i := 0; i < total; i++ {
@@ -333,6 +374,18 @@ func TestGenC14(t *testing.T) {
 			cfg := simCfg{id: fmt.Sprintf("k%d", id), n: uint8(rr.pick([]int{1, 2, 3, 20})), chunk: c, static: time.Second}
 			runDataScenario(t, l, q, cfg, rr, dataParams{steps: 40, prof: prof, recvEager: true, explicit: &ex, prop: "c14"})
 			q.stat(fmt.Sprintf("chunk_%d", c), 1)
+		}
+	}
+	// the two endpoints configured with different maximum chunk sizes (one of them possibly with none): where a
+	// message ends is decided by the sender's FinalChunk flags alone
+	for _, cc := range [][2]int{{4, -1}, {0, 4}, {1, 7}, {7, 1}, {3, -1}, {0, 1}, {16, 5}} {
+		for _, L := range []int{0, 1, 3, 4, 5, 9, 10, 33} {
+			id++
+			rr := r.sub(id)
+			ex := [2][][]byte{{rr.bytes(L), rr.bytes(2), rr.bytes(L + 1)}, {rr.bytes(L), rr.bytes(11)}}
+			cfg := simCfg{id: fmt.Sprintf("k%d", id), n: uint8(rr.pick([]int{1, 3, 20})), chunk: cc[0], srvChunk: cc[1], static: time.Second}
+			runDataScenario(t, l, q, cfg, rr, dataParams{steps: 40, prof: profiles[0], recvEager: true, explicit: &ex, prop: "c14"})
+			q.stat("asymmetric_chunk_configs", 1)
 		}
 	}
 	// random large payloads
